@@ -118,3 +118,8 @@ Definition py_except_value {A} (d : A) (o : outcome A) : outcome A :=
    run (Gen/codec_gen.v, which opens string_scope and is therefore not imported by the generated files) *)
 From NV Require Gen.codec_gen.
 Definition py_BYTES_TO_BITS : list string := NV.Gen.codec_gen.gen_bytes_to_bits.
+
+(* s.split('::') and '::' in s: the hand models of Model/IpText.v (validated against CPython by the c01_split_dc command) *)
+From NV Require Model.IpText.
+Definition py_split_dc (s : string) : list string := map str_of (IpText.split_dc_chars (chars s) []).
+Definition py_contains_dc (s : string) : bool := IpText.contains_dc_chars (chars s).
